@@ -886,22 +886,30 @@ def check_subset_sweep(ctx, n_pairs, lean_lines, lean_expect):
 # ------------------------------------------------------------------ the check
 
 def check(ctx):
-    thorough = ctx.tier == "thorough"
+    t_phase = [time.time()]
+
+    def phase(name):
+        now = time.time()
+        ctx.count("seconds:" + name, round(now - t_phase[0], 1))
+        t_phase[0] = now
     miss = catalogue_complete()
     if miss:
         ctx.disagree("catalogue", miss, "every public entry point has an entry", "no entry for " + ", ".join(miss),
                      "a new entry point with random_state= is not covered by the C15 catalogue")
     # (a)(b)(c)
     check_entries(ctx, n_cases=ctx.budget(3, 40), n_fresh=ctx.budget(1, 6))
+    phase("entries (a)(b)(c)")
     # (d) forest
     r = ctx.fork("parallel")
     fcases = [forest_case(r) for _ in range(ctx.budget(8, 200))]
     for c in fcases:
         check_forest_njobs(ctx, c)
+    phase("forest n_jobs (d)")
     # (e) discipline + subsets
     lean_lines, lean_expect = [], []
     for i, c in enumerate(fcases[:ctx.budget(8, 100)]):
         check_discipline(ctx, c, N_JOBS[i % 4], lean_lines, lean_expect)
+    phase("forest discipline (e)")
     check_subset_sweep(ctx, ctx.budget(200, 6000), lean_lines, lean_expect)
     outs = leanio.run_driver("Schedule", lean_lines)
     for (unit, inp), impl, out in zip((e[0] for e in lean_expect), (e[1] for e in lean_expect), outs):
@@ -919,10 +927,12 @@ def check(ctx):
         parts = line.split(" ;; ")
         if len(parts) != 4 or parts[0] != parts[1] or parts[2] == parts[3]:
             ctx.disagree("schedule.toy", "sched", line, "owned: equal, shared: different")
+    phase("subset sweep + Lean driver")
     # (d) logistic regression (process workers)
     lcases = [logreg_case(r) for _ in range(ctx.budget(4, 40))]
     check_logreg(ctx, lcases)
     check_logreg_repeat(ctx, logreg_case(r, many=True), reps=ctx.budget(3, 8))
+    phase("logistic regression n_jobs (d)")
     ctx.sample({"entry": "models.RandomForestClassifier", "case": fcases[0], "n_jobs_compared": list(N_JOBS),
                 "lean_subset_line": lean_lines[0], "model_answer": outs[0][:60]})
     ctx.sample({"entry_points": sorted(ENTRIES)[:12] + ["…"], "total": len(ENTRIES)})
